@@ -138,8 +138,32 @@ def validate(groups, devs, wd, workers=8):
         cfg_obj = dict(cfg)
         cfg_obj["devs"] = devs
         sub = os.path.join(wd, "tv-%d" % i)
-        return runs, tlc.validate(path, "Trace_Elect.tla", "Trace_Elect.cfg", cfg_obj, "/dev/null", sub, shards=2,
-                                  max_failures=len(runs) + 1)
+        try:
+            return runs, tlc.validate(path, "Trace_Elect.tla", "Trace_Elect.cfg", cfg_obj, "/dev/null", sub, shards=2,
+                                      max_failures=len(runs) + 1, timeout=600)
+        except tlc.ToolError:
+            # following the model did not come to an end on some run of the group (a changed implementation can make
+            # the search for the model's step blow up): every run is tried on its own, and one that still does not finish
+            # is a run that does not follow the model -- it is then judged by the reference monitor with no recorded
+            # finding enabled, like every run that leaves the model
+            out = {"events": 0, "states": 0, "rejected": [], "used": {}}
+            for j, lines in enumerate(tlc.split_runs(path)):
+                one_path = os.path.join(sub, "single-%d.ndjson" % j)
+                os.makedirs(sub, exist_ok=True)
+                open(one_path, "w").writelines(lines)
+                try:
+                    o = tlc.validate(one_path, "Trace_Elect.tla", "Trace_Elect.cfg", cfg_obj, "/dev/null",
+                                     os.path.join(sub, "single-%d" % j), shards=1, max_failures=2, timeout=300)
+                    out["events"] += o["events"]
+                    out["states"] += o["states"]
+                    out["rejected"] += o["rejected"]
+                    for d, rs in o["used"].items():
+                        out["used"].setdefault(d, []).extend(rs)
+                except tlc.ToolError as e:
+                    rid = json.loads(lines[0]).get("run", "?") if lines else "?"
+                    out["rejected"].append({"run": rid, "i": -1, "event": "", "lines": lines,
+                                            "tlc": "following NunElect did not finish: " + str(e)[:300]})
+            return runs, out
     with ThreadPoolExecutor(max_workers=workers) as ex:
         results = list(ex.map(one, enumerate(groups)))
     for runs, out in results:
